@@ -580,6 +580,15 @@ impl Scenario for Flow {
                     }
                     let parsed = match (res.n(), parsed) {
                         (Some(_), Some(p)) => p,
+                        (Some(_), None) => {
+                            // emitted, but the monitor could not decide (chain outside the property's domain):
+                            // the packet is not forwarded, so both label memories restart (as at a frame boundary)
+                            ex.st.inc("undecided_emission_not_forwarded");
+                            enc.reset_last_label();
+                            led.reset();
+                            rx.reset();
+                            continue;
+                        }
                         _ => {
                             ex.st.inc("tx_err");
                             continue;
